@@ -26,7 +26,8 @@ LEVEL = "exploration"
 RULE = (
     "case = (scenario, thread op lists, schedule). Scenarios: first-load-same (2-3 threads), different-uris, modify-race "
     "(modification + get_template vs get_template, 1-2 modifications), failing-compile, bounded (collection_size 1-2), "
-    "render-shared (generated template, 2-3 contexts). Schedules: (A) every interleaving at coarse points, enumerated by DFS "
+    "render-shared (generated template, 2-3 contexts), def-render (get_def(name).render of one def by two threads with different "
+    "arguments, every one-preemption schedule). Schedules: (A) every interleaving at coarse points, enumerated by DFS "
     "(bounded at 3000 executions per scenario instance); (B) hypothesis-drawn byte schedules at line granularity. "
     "non-trivial = the schedule has >=1 preemption (a switch away from a runnable thread) inside get_template/_load/_check or a "
     "render; distinct by (scenario instance, choice sequence)."
@@ -637,6 +638,72 @@ def shard_steady_sweep2(task):
     return ev, list(fails.values())
 
 
+# ---- one def of one Template rendered from the top level by two threads with different arguments: every schedule with one preemption ----
+DEF_RENDER = ('<%def name="greet(name, title=\'t\', *rest, **kw)">hello ${title} ${name} ${rest} ${sorted(kw)} ${cs}</%def>'
+              '<%def name="plain(name, title=\'t\')">plain ${title} ${name} ${cs}</%def>page ${cs}')
+DEF_ARGS = [("plain", {"name": "alice", "title": "ms", "cs": "S0"}), ("plain", {"name": "bob", "cs": "S1"}),
+            ("greet", {"name": "carol", "title": "dr", "cs": "S0"}), ("greet", {"name": "dan", "title": "mr", "cs": "S1"})]
+
+
+def def_render_case(pair, chooser, ev, fails, tag, state):
+    """get_def(name).render_unicode(**data) picks the def's named arguments out of the data (runtime._kwargs_for_callable); two threads
+    doing so for the same def with different data each get the output they get alone."""
+    import mako.runtime
+    from mako.template import Template
+
+    if "t" not in state:
+        t = Template(DEF_RENDER, uri="/c16def_%d.html" % next(_k))
+        state["t"] = (t, [t.get_def(n).render_unicode(**a) for n, a in DEF_ARGS])
+    t, solo = state["t"]
+    files = {mako.runtime.__file__}
+    modname = t.module.__name__
+    sch = S.Scheduler(chooser, trace=lambda fn: fn in files or fn == modname, max_steps=200000)
+    idxs = [2 * pair, 2 * pair + 1]
+
+    def worker(i):
+        def run():
+            n, a = DEF_ARGS[idxs[i]]
+            try:
+                return t.get_def(n).render_unicode(**a)
+            except Exception as e:  # noqa: BLE001 - the type is the observation
+                return "%s: %s" % (type(e).__name__, str(e)[:80])
+        return run
+
+    case = {"part": "def-render", "pair": pair, "sweep": tag}
+    try:
+        res, errs = sch.run([worker(0), worker(1)])
+    except S.Deadlock as e:
+        fails.setdefault("def-render-deadlock", Failure(case, "deadlock: %s" % e, "def-render-deadlock"))
+        return len(sch.choices)
+    for i in (0, 1):
+        if res.get(i) != solo[idxs[i]]:
+            n, a = DEF_ARGS[idxs[i]]
+            f = Failure(case, "thread %d: get_def(%r).render_unicode(**%r) gave %r while another thread rendered the same def with other arguments, "
+                        "%r alone (%d preemptions)\n--- source ---\n%s" % (i, n, a, res.get(i), solo[idxs[i]], sch.preemptions, DEF_RENDER),
+                        "def-render-differs-from-solo")
+            fails.setdefault(f.key, f)
+    ev.case(key=["def-render", pair, tag], nontrivial=sch.preemptions >= 1, labels=("def-render-sweep", "preempt:%d" % min(sch.preemptions, 5)))
+    return len(sch.choices)
+
+
+def shard_def_render_sweep(task):
+    pair, first, lo, hi = task
+    core.setup_repo()
+    ev = core.Evidence()
+    fails = {}
+    state = {}
+    k = lo
+    while k < hi:
+        ch = S.OnePreemptionChooser(k, first)
+        n = def_render_case(pair, ch, ev, fails, [first, k], state)
+        if ch.exhausted or k > n + 2:
+            break
+        k += 1
+    ev.notes["def_render_decisions_per_run"] = n
+    return ev, list(fails.values())
+
+
+
 # ---- shards --------------------------------------------------------------------
 KINDS = ["first-load-same", "different-uris", "modify-race", "failing-compile", "bounded", "bounded-vanish"]
 
@@ -771,6 +838,8 @@ def run(ctx):
     # quick: every third k1 (offset by the seed), every fourth k2
     q1, q2 = ctx.pick(3, 1), ctx.pick(4, 1)
     ctx.pmap(shard_steady_sweep2, [(idx, list(range(i * q1 + (ctx.seed % q1), 180, 16 * q1)), q2) for idx in range(len(STEADY)) for i in range(16)])
+    # every one-preemption schedule of two top-level def renders (both tiers: the runs are short)
+    ctx.pmap(shard_def_render_sweep, [(pair, first, lo, lo + 40) for pair in (0, 1) for first in (0, 1) for lo in range(0, 640, 40)])
     ctx.pmap(shard_random, [(ctx.shard_seed(i), ctx.pick(60, 1500), ctx.pick(25, 500)) for i in range(16)])
 
 
@@ -781,6 +850,11 @@ def replay(case):
             ev = core.Evidence()
             fails = {}
             steady_render_case(case["template"], S.TwoPreemptionChooser(*case["sweep"]), ev, fails, case["sweep"], {})
+            return next(iter(fails.values()), None)
+        if case.get("part") == "def-render":
+            ev = core.Evidence()
+            fails = {}
+            def_render_case(case["pair"], S.OnePreemptionChooser(case["sweep"][1], case["sweep"][0]), ev, fails, case["sweep"], {})
             return next(iter(fails.values()), None)
         if case.get("part") == "first-use":
             ev = core.Evidence()
